@@ -39,6 +39,7 @@ pub fn gen_opts(ctx: &Ctx) -> GenOpts {
   let mut o = GenOpts::default();
   o.cbor = true;
   o.eq_on_bool = !ctx.excl("eq_ne_non_text_numeric_target");
+  o.group_alias_bodies = !ctx.excl("group_rule_aliasing_a_group_rule");
   o.undefined = !ctx.excl("cbor_undefined_is_null");
   o.map_group_choices = !ctx.excl("cbor_map_group_choice");
   o.map_group_occ = !ctx.excl("cbor_map_group_occurrence");
